@@ -85,3 +85,154 @@ package engine
 //@   loop 0 invariant forks: forked(wg) == nfork && nfork == itercount && added(wg) == len(KC0.RuleEntities)
 //@   loop 0 invariant err: (len(eMsg) > 0 <==> anyfail) && (isnil(eMsg) || fresh(arr(eMsg)))
 //@   loop 0 invariant res: fresh(g.returnResult) && dom(g.returnResult) == R && g.returnResult != nil
+
+// ---------------------------------------------------------------------------
+// mix model
+
+//@ func (*Gengine).ExecuteMixModel$1
+//@   use ruletask(wg, C05 C09 C11)
+
+//@ func (*Gengine).ExecuteMixModel
+//@   props C05 C11 C09
+//@   entry nolocks
+//@   requires g != nil
+//@   requires rb != nil ==> wfSorted(rb.Kc)
+//@   ghost S = rb.Kc.SortRules
+//@   use seqmonitor(S, false, false)
+//@   use forkghosts()
+//@   use forkmonitor($1, S, 1, 0, cursor == 1 && !failed)
+//@   ensures [C05] mix: rb != nil && len(S) > 0 ==> cursor == 1 && ((result != nil) <==> (failed || cfailed)) && (nfork == 0 || nfork == len(S) - 1) && (nfork == 0 ==> (failed || len(S) == 1)) && (failed ==> nfork == 0)
+//@   ensures [C05] norules: rb == nil || len(S) == 0 ==> result != nil && cursor == 0 && nfork == 0
+//@   ensures [C11] resultmap: rb != nil ==> !pend && fresh(g.returnResult) && dom(g.returnResult) == R
+//@   modifies frame rulerun, g.returnResult
+//@   nopanic
+//@   use forkloop(0, wg, len(S) - 1, 0)
+//@   loop 0 invariant inv: cursor == 1 && !failed && stage == 0
+
+//@ func (*Gengine).ExecuteMixModelWithStopTagDirect$1
+//@   use ruletask(wg, C05 C09 C11 C14)
+
+//@ func (*Gengine).ExecuteMixModelWithStopTagDirect
+//@   props C05 C11 C09 C14
+//@   entry nolocks
+//@   requires g != nil && sTag != nil
+//@   requires rb != nil ==> wfSorted(rb.Kc)
+//@   ghost S = rb.Kc.SortRules
+//@   use seqmonitor(S, sTag.StopTag, false)
+//@   use forkghosts()
+//@   use forkmonitor($1, S, 1, 0, cursor == 1 && !failed && !stopped)
+//@   ensures [C05,C14] mix: rb != nil && len(S) > 0 ==> cursor == 1 && ((result != nil) <==> (failed || cfailed)) && (nfork == 0 || nfork == len(S) - 1) && (nfork == 0 ==> (failed || stopped || len(S) == 1)) && (failed ==> nfork == 0)
+//@   ensures [C14] stopnofork: stopped ==> nfork == 0
+//@   ensures [C05] norules: rb == nil || len(S) == 0 ==> result != nil && cursor == 0 && nfork == 0
+//@   ensures [C11] resultmap: rb != nil ==> !pend && fresh(g.returnResult) && dom(g.returnResult) == R
+//@   modifies frame rulerun, g.returnResult
+//@   nopanic
+//@   use forkloop(0, wg, len(S) - 1, 0)
+//@   loop 0 invariant inv: cursor == 1 && !failed && !stopped && stage == 0
+
+// ---------------------------------------------------------------------------
+// inverse mix model
+
+//@ func (*Gengine).ExecuteInverseMixModel$1
+//@   use ruletask(wg, C05 C09 C11)
+
+//@ func (*Gengine).ExecuteInverseMixModel
+//@   props C05 C11 C09
+//@   entry nolocks
+//@   requires g != nil
+//@   requires rb != nil ==> wfSorted(rb.Kc)
+//@   ghost S = rb.Kc.SortRules
+//@   use seqmonitorx(S, false, false, ite(len(S) <= 2, cursor, len(S) - 1))
+//@   use forkghosts()
+//@   use forkmonitor($1, S, 0, 0, cursor == 0)
+//@   oncall (*base.RuleEntity).Execute
+//@     assert [C05] barrier: len(S) > 2 ==> stage == 1 && nfork == len(S) - 1 && cursor == 0 && !cfailed
+//@   ensures [C05] small: rb != nil && 0 < len(S) && len(S) <= 2 ==> nfork == 0 && ((result != nil) <==> failed) && (!failed ==> cursor == len(S))
+//@   ensures [C05] invmix: rb != nil && len(S) > 2 ==> nfork == len(S) - 1 && ((result != nil) <==> (failed || cfailed)) && (cursor == 1 || cursor == 0) && (cursor == 0 <==> cfailed)
+//@   ensures [C05] norules: rb == nil || len(S) == 0 ==> result != nil && cursor == 0 && nfork == 0
+//@   ensures [C11] resultmap: rb != nil ==> !pend && fresh(g.returnResult) && dom(g.returnResult) == R
+//@   modifies frame rulerun, g.returnResult
+//@   nopanic
+//@   loop 0 invariant cur: cursor == rangeindex + 1 && 0 <= cursor && cursor <= len(S) && len(S) <= 2 && !failed && nfork == 0 && stage == 0
+//@   loop 0 invariant res: !pend && !stopped && fresh(g.returnResult) && dom(g.returnResult) == R && g.returnResult != nil
+//@   loop 0 invariant lk: !held(g.lock)
+//@   loop 0 decreases len(S) - rangeindex
+//@   use forkloop(1, wg, len(S) - 1, 0)
+//@   loop 1 invariant inv: cursor == 0 && stage == 0 && len(S) > 2 && !stopped
+
+// ---------------------------------------------------------------------------
+// selected, sequential variants
+
+//@ func (*Gengine).ExecuteSelectedRulesWithControl$1
+//@   use lesscontract(C04 C12)
+
+//@ func (*Gengine).ExecuteSelectedRulesWithControl
+//@   props C04 C11 C09 C12
+//@   entry nolocks
+//@   requires g != nil
+//@   requires rb != nil ==> wfEntities(rb.Kc)
+//@   ghost perm = idperm()
+//@   ghost iperm = idperm()
+//@   use selectloop(0, names)
+//@   use seqmonitor(rules, false, b)
+//@   use seqpost(rules, b, cursor > 0)
+//@   ensures [C12] nothingselected: cursor == 0 ==> result != nil
+//@   modifies frame rulerun, g.returnResult
+//@   nopanic
+//@   use seqloop(1, rules, b)
+//@   use selectedfacts(1, names)
+//@   loop 1 invariant [C04] sorted: sortedDesc(rules)
+
+//@ func (*Gengine).ExecuteSelectedRulesWithControlAsGivenSortedName
+//@   props C11 C09 C12
+//@   entry nolocks
+//@   requires g != nil
+//@   requires rb != nil ==> wfEntities(rb.Kc)
+//@   ghost perm = idperm()
+//@   ghost iperm = idperm()
+//@   use selectloop(0, sortedNames)
+//@   use seqmonitor(rules, false, b)
+//@   use seqpost(rules, b, cursor > 0)
+//@   ensures [C12] nothingselected: cursor == 0 ==> result != nil
+//@   modifies frame rulerun, g.returnResult
+//@   nopanic
+//@   use seqloop(1, rules, b)
+//@   use selectedfacts(1, sortedNames)
+//@   loop 1 invariant [C12] asgiven: forall a, c :: lo(rules) <= a && a < c && c < hi(rules) ==> src[a] < src[c]
+
+//@ func (*Gengine).ExecuteSelectedRulesWithControlAndStopTag$1
+//@   use lesscontract(C04 C12)
+
+//@ func (*Gengine).ExecuteSelectedRulesWithControlAndStopTag
+//@   props C04 C11 C09 C12 C14
+//@   entry nolocks
+//@   requires g != nil && sTag != nil
+//@   requires rb != nil ==> wfEntities(rb.Kc)
+//@   ghost perm = idperm()
+//@   ghost iperm = idperm()
+//@   use selectloop(0, names)
+//@   use seqmonitor(rules, sTag.StopTag, b)
+//@   use seqpost(rules, b, cursor > 0)
+//@   ensures [C12] nothingselected: cursor == 0 ==> result != nil
+//@   modifies frame rulerun, g.returnResult
+//@   nopanic
+//@   use seqloop(1, rules, b)
+//@   use selectedfacts(1, names)
+//@   loop 1 invariant [C04] sorted: sortedDesc(rules)
+
+//@ func (*Gengine).ExecuteSelectedRulesWithControlAndStopTagAsGivenSortedName
+//@   props C11 C09 C12 C14
+//@   entry nolocks
+//@   requires g != nil && sTag != nil
+//@   requires rb != nil ==> wfEntities(rb.Kc)
+//@   ghost perm = idperm()
+//@   ghost iperm = idperm()
+//@   use selectloop(0, sortedNames)
+//@   use seqmonitor(rules, sTag.StopTag, b)
+//@   use seqpost(rules, b, cursor > 0)
+//@   ensures [C12] nothingselected: cursor == 0 ==> result != nil
+//@   modifies frame rulerun, g.returnResult
+//@   nopanic
+//@   use seqloop(1, rules, b)
+//@   use selectedfacts(1, sortedNames)
+//@   loop 1 invariant [C12] asgiven: forall a, c :: lo(rules) <= a && a < c && c < hi(rules) ==> src[a] < src[c]
